@@ -129,7 +129,7 @@ func c06(tier string) {
 		ctx.Finish()
 	}
 	self, acv := os.Getenv("VERIF_SELF"), os.Getenv("VERIF_ACV")
-	tmp, _ := os.MkdirTemp("", "c06")
+	tmp := lib.TempDir("c06")
 	defer os.RemoveAll(tmp)
 	fx := lib.LoadFixtures(30, 30)
 	type pair struct {
